@@ -6,7 +6,7 @@ VERIF = os.path.dirname(os.path.dirname(os.path.abspath(__file__)))
 COQ = os.path.join(VERIF, "coq")
 import json
 TRANSLATORS = {k: (v["script"], v["gen"], v["chain"], set(v["pids"]))
-               for k, v in json.load(open(os.path.join(VERIF, "translate", "chains.json"))).items() if k != "tlsconf"}
+               for k, v in json.load(open(os.path.join(VERIF, "translate", "chains.json"))).items()}
 def translators_for(pid):
     return [k for k, v in TRANSLATORS.items() if pid in v[3]]
 
